@@ -1,5 +1,6 @@
 """C09 - flatten removes all hierarchy and preserves leaf-level connectivity."""
 from simkit.engine import Prop
+from simkit import design_shrink, textgen_verilog
 from simkit.gen_hier import hier_config, Builder, ScriptGen
 from simkit.model import scan
 from simkit.oracles.elab import Elab, partition_diff
@@ -32,7 +33,7 @@ def flat_partition(netlist):
     for c in d.children:
         if c.reference is None:
             continue
-        path = tuple((c.name or "").split("/"))
+        path = c.name or ""      # the slash-joined path as one string (an instance name may itself contain '/')
         for pi, port in enumerate(c.reference.ports):
             for bi, ip in enumerate(port.pins):
                 ep = ("pin", path, port.name if port.name is not None else "#%d" % pi, bi)
@@ -43,6 +44,24 @@ def flat_partition(netlist):
                     singles.append(ep)
     parts = [frozenset(g) for g in groups.values()] + [frozenset([s]) for s in singles]
     return frozenset(parts)
+
+
+def no_slash(x):
+    """The same design with '.' for every '/' in its identifiers: '/' is the separator flatten joins paths with, and
+    with it inside names two different paths can spell the same flattened name (which flatten then refuses)."""
+    if isinstance(x, str):
+        return x.replace("/", ".")
+    if isinstance(x, (list, tuple)):
+        return type(x)(no_slash(y) for y in x)
+    if isinstance(x, dict):
+        return dict((no_slash(k), no_slash(v)) for k, v in x.items())
+    return x
+
+
+def joined_paths(part):
+    """The elaborator's endpoints name a leaf pin by the tuple of instance names; flatten names it by their join."""
+    return frozenset(frozenset((("pin", "/".join(x or "" for x in e[1])) + tuple(e[2:])) if e[0] == "pin" else e for e in g)
+                     for g in part)
 
 
 class C09(Prop):
@@ -57,7 +76,8 @@ class C09(Prop):
             "multiset, final fingerprint) pairs")
     components_real = REAL
     components_stub = STUB
-    assumptions = ["instance names in generated designs contain no '/' and are unique per definition",
+    assumptions = ["names may contain '/'; a design in which two different paths (of instances or of cables) spell the "
+                   "same slash-joined name is skipped: the naming clause cannot hold for both",
                    "a leaf is a definition without children and without cables",
                    "instance data compared = user keys (not '.NAME', '.NS', 'EDIF.identifier', which flatten "
                    "is allowed to rewrite)"]
@@ -70,9 +90,23 @@ class C09(Prop):
         cfg["extra_unreachable"] = False if rng.random() < 0.5 else cfg["extra_unreachable"]
         cfg["flat_counter_start"] = rng.choice([0, 0, 3])
         cfg["late_pins"] = rng.choice([0, 0, 0.4])
+        cfg["slash_rate"] = rng.choice([0, 0, 0.3])
+        if rng.random() < 0.2:
+            cfg["source"] = "v"
+            cfg["vgen"] = {"depth": rng.choice([2, 3, 4]), "max_mods": rng.choice([1, 2, 3]), "max_ports": rng.choice([2, 4]),
+                           "max_wires": 3, "max_insts": rng.choice([3, 5]), "max_prims": 2,
+                           "order": rng.choice(["bottom_up", "top_down", "shuffled"]), "positional_rate": 0.2}
         return cfg
 
     def make_gen(self, w, rng, cfg):
+        if cfg.get("source") == "v":
+            # a design as the Verilog reader builds it (pin tables in mention order, assign cells, constants)
+            d = textgen_verilog.gen_design(rng, cfg["vgen"])
+            rs = rng.getrandbits(32)
+            ev = [{"op": "fs_put", "path": "sim://in.v", "text": design_shrink.render("v", d, rs, {"ws": "plain", "comment_rate": 0.0}),
+                   "design": d, "fmt": "v", "render": {"ws": "plain", "comment_rate": 0.0}, "render_seed": rs},
+                  {"op": "parse", "path": "sim://in.v"}]
+            return ScriptGen(ev + [{"op": "uniquify", "on": "e1.0"}, {"op": "flatten", "on": "e1.0"}])
         b = Builder(rng, cfg)
         ev = b.build()
         return ScriptGen(ev + [{"op": "uniquify", "on": b.netlist}, {"op": "flatten", "on": b.netlist}])
@@ -93,7 +127,24 @@ class C09(Prop):
         depth = max((len(p) for p in el.occ), default=1)
         if depth >= 3:
             w.count("probe.depth_ge_2_below_top")
-        return {"netlist": n, "leaves": leaves, "part": el.endpoint_partition(), "depth": depth}
+        # '/' inside names: "named by its slash-joined path" can only hold if no two paths spell the same name.
+        # Every occurrence (hierarchical cells are brought up under their joined name before they are dissolved)
+        # and every cable of every occurrence must get a name of its own; otherwise nothing is claimed.
+        inst_names = ["/".join(x or "" for x in el.names(p)) for p in el.occ if len(p) > 1]
+        cable_names = []
+        for p in el.occ:
+            d = p[-1].reference
+            if d is None:
+                continue
+            prefix = "/".join(x or "" for x in el.names(p))
+            for c in d.cables:
+                cable_names.append((prefix + "/" if len(p) > 1 else "") + (c.name or ""))
+        if len(set(inst_names)) != len(inst_names) or len(set(cable_names)) != len(cable_names):
+            w.count("probe.joined_names_ambiguous_skipped")
+            return None
+        if any("/" in (x.name or "") for p in el.occ for x in p[1:]):
+            w.count("probe.design_with_slash_in_instance_name")
+        return {"netlist": n, "leaves": leaves, "part": joined_paths(el.endpoint_partition()), "depth": depth}
 
     def after(self, w, ev, outcome, pre):
         if ev["op"] == "uniquify" and outcome != "ok":
